@@ -27,7 +27,8 @@ M0 == [dialect |-> "", tables |-> <<>>, world |-> "open",
        frames |-> <<>>,            \* stack of WITH frames, each a sequence of [name, rel]
        scopes |-> <<>>,            \* stack of SELECT scopes, innermost last
        results |-> <<>>,           \* stack of finished relations, newest last
-       expect |-> <<>>, hasExpect |-> FALSE, ordered |-> TRUE,   \* C05: the columns the statement must return
+       expect |-> <<>>, hasExpect |-> FALSE, ordered |-> TRUE,
+       takes |-> <<>>, expectTakes |-> <<>>, hasTakes |-> FALSE,   \* C03: LIMIT / OFFSET of each query, in walk order   \* C05: the columns the statement must return
        judged |-> TRUE]
 
 NewScope(iso) == [iso |-> iso, aliases |-> <<>>, out |-> <<>>, outOpen |-> FALSE, nproj |-> 0]
@@ -157,6 +158,7 @@ Verdict(m, e) ==
               ELSE IF e.name = "none" /\ Unsupported("setop-bare", m.dialect) THEN "unsupported-construct"
               ELSE ""
     [] e.ev = "Values" -> ""
+    [] e.ev = "Take" -> ""
     [] e.ev = "SubqueryEnd" -> IF m.results = <<>> THEN "walk" ELSE ""
     [] e.ev \in {"Unknown", "NotAQuery"} -> "walk"
     [] OTHER -> "walk"
@@ -196,6 +198,7 @@ Step(m, e) ==
     [] e.ev = "SetOp" -> [m EXCEPT !.results = Append(Pop2(m.results), m.results[Len(m.results) - 1])]
     [] e.ev = "Values" -> [m EXCEPT !.results = Append(m.results, Rel(FALSE, [i \in 1 .. e.n |-> ""]))]
     [] e.ev = "SubqueryEnd" -> [m EXCEPT !.results = Pop(m.results)]
+    [] e.ev = "Take" -> [m EXCEPT !.takes = Append(m.takes, <<e.name, e.q>>)]
     [] OTHER -> m
 
 \* a walk that is complete leaves exactly the statement's relation
@@ -218,5 +221,10 @@ FrameOk(m) ==
                 /\ \A c \in Set(m.expect) \ {""} : c \in Set(r.cols) \/ "" \in Set(r.cols)
                 /\ \A c \in Set(r.cols) \ {""} : c \in Set(m.expect) \/ "" \in Set(m.expect)
 
-Begin(e) == [M0 EXCEPT !.dialect = e.q, !.tables = e.tabs, !.world = e.alias, !.expect = e.expect, !.hasExpect = e.has_expect, !.ordered = e.ordered]
+\* C03 beyond SQLite: the statement selects the same row positions in the same places as the statement
+\* emitted for SQLite (whose result was validated by execution): the same sequence of (limit, offset)
+TakesOk(m) == ~m.hasTakes \/ m.takes = m.expectTakes
+
+Begin(e) == [M0 EXCEPT !.dialect = e.q, !.tables = e.tabs, !.world = e.alias, !.expect = e.expect, !.hasExpect = e.has_expect, !.ordered = e.ordered,
+                       !.expectTakes = e.expect_takes, !.hasTakes = e.has_takes]
 =============================================================================
